@@ -150,6 +150,17 @@ Definition py_index {A} (l : list A) (i : Z) : option A :=
   let j := if i <? 0 then i + Z.of_nat (length l) else i in
   if j <? 0 then None else nth_error l (Z.to_nat j).
 
+(* xs[i] = v : functional update; IndexError = None; a negative i counts from the end *)
+Fixpoint list_upd {A} (l : list A) (i : nat) (v : A) : list A :=
+  match l, i with
+  | [], _ => []
+  | _ :: r, O => v :: r
+  | x :: r, S i' => x :: list_upd r i' v
+  end.
+Definition py_set {A} (l : list A) (i : Z) (v : A) : option (list A) :=
+  let j := if i <? 0 then i + Z.of_nat (length l) else i in
+  if j <? 0 then None else if j <? Z.of_nat (length l) then Some (list_upd l (Z.to_nat j) v) else None.
+
 (* len(xs) *)
 Definition py_len {A} (l : list A) : Z := Z.of_nat (length l).
 
@@ -177,6 +188,9 @@ Definition py_list_min {V} (O : NumOps V) (l : list V) : option V :=
   match l with [] => None | x :: r => Some (fold_left (py_min O) r x) end.
 Definition py_list_max {V} (O : NumOps V) (l : list V) : option V :=
   match l with [] => None | x :: r => Some (fold_left (py_max O) r x) end.
+
+(* a % b on ints: ZeroDivisionError when b == 0; the sign follows the divisor (Z.modulo) *)
+Definition py_mod (a b : Z) : option Z := if b =? 0 then None else Some (a mod b).
 
 (* xs[:k] for an int k: a negative k counts from the end *)
 Definition py_upto_z {A} (k : Z) (l : list A) : list A :=
@@ -307,3 +321,18 @@ Qed.
 Lemma for_list_hook {E S R} (h : E -> S -> S) (l : list E) (s : S) :
   for_list (fun e w => @Next S R (h e w)) l s = Next (fold_left (fun w e => h e w) l s).
 Proof. exact (for_list_total (fun w e => h e w) l s). Qed.
+
+Lemma py_set_nat {A} (l : list A) (i : nat) (v : A) :
+  (i < length l)%nat -> py_set l (Z.of_nat i) v = Some (list_upd l i v).
+Proof.
+  intro H. unfold py_set.
+  assert (E : (Z.of_nat i <? 0) = false) by (apply Z.ltb_ge; lia). rewrite E. cbv zeta. rewrite E.
+  assert (E2 : (Z.of_nat i <? Z.of_nat (length l)) = true) by (apply Z.ltb_lt; lia). rewrite E2.
+  now rewrite Nat2Z.id.
+Qed.
+
+Lemma list_upd_length {A} (l : list A) (i : nat) (v : A) : length (list_upd l i v) = length l.
+Proof. revert i. induction l as [|x l IH]; intros [|i]; cbn [list_upd length]; auto. Qed.
+
+Lemma nth_error_nth' {A} (l : list A) (i : nat) (d : A) : (i < length l)%nat -> nth_error l i = Some (nth i l d).
+Proof. revert i. induction l as [|x l IH]; intros [|i] H; cbn [length nth_error nth] in *; try lia; auto. apply IH. lia. Qed.
